@@ -71,4 +71,28 @@ def runHistory (t : Target) (guard : PS → Bool) : HState → List HOp → List
     let s' := hApply t guard s op
     s' :: runHistory t guard s' ops
 
+/-! ## histories in which the target is replaced (the HybridGibbs per-sweep pattern)
+
+`sampler.target = B` only stores `B` (and validates it); the documented way to continue is
+`sampler.initial_point = sampler.current_point; sampler.reinitialize()` (restart where the chain stands) or a plain
+`reinitialize()` (restart at the object's initial point): `_initialize` then evaluates the NEW target at the starting
+point.  As after every `reinitialize()`, the step size is the constructor's and the depth bound the default. -/
+
+inductive HOp2 where
+  | op (o : HOp)
+  | retarget (t' : Target) (here : Bool)      -- `here`: `initial_point = current_point` before `reinitialize()`
+
+def hApply2 (guard : PS → Bool) (ts : Target × HState) : HOp2 → Target × HState
+  | .op o => (ts.1, hApply ts.1 guard ts.2 o)
+  | .retarget t' here =>
+    let s := ts.2
+    let home := if here then s.x else s.home
+    (t', { s with x := home, logd := t'.logd home, grad := t'.grad home, md := defaultDepth, eps := s.eps0, home := home })
+
+def runHistory2 (guard : PS → Bool) : Target × HState → List HOp2 → List (Target × HState)
+  | _, [] => []
+  | ts, op :: ops =>
+    let ts' := hApply2 guard ts op
+    ts' :: runHistory2 guard ts' ops
+
 end CuqiVerif.C08
